@@ -242,17 +242,23 @@ func BFS[E any](r *Result, step func(hist []E) (key string, enabled []E), opts B
 			st.DepthCapped = true
 			break
 		}
+		// a job is (frontier node, event): the history is materialised only while it runs
 		type job struct {
-			hist []E
+			parent int
+			ev     E
 		}
 		var jobs []job
-		for _, n := range frontier {
+		for pi, n := range frontier {
 			for _, ev := range n.enabled {
-				h := make([]E, len(n.hist)+1)
-				copy(h, n.hist)
-				h[len(n.hist)] = ev
-				jobs = append(jobs, job{h})
+				jobs = append(jobs, job{pi, ev})
 			}
+		}
+		histOf := func(j job) []E {
+			ph := frontier[j.parent].hist
+			h := make([]E, len(ph)+1)
+			copy(h, ph)
+			h[len(ph)] = j.ev
+			return h
 		}
 		type res struct {
 			key     stateID
@@ -287,7 +293,7 @@ func BFS[E any](r *Result, step func(hist []E) (key string, enabled []E), opts B
 					if ex {
 						return
 					}
-					k, en := step(jobs[i].hist)
+					k, en := step(histOf(jobs[i]))
 					results[i] = res{hashKey(k), en, true}
 				}
 			}()
@@ -304,7 +310,7 @@ func BFS[E any](r *Result, step func(hist []E) (key string, enabled []E), opts B
 			}
 			seen[rs.key] = struct{}{}
 			st.States++
-			nf = append(nf, node{jobs[i].hist, rs.enabled})
+			nf = append(nf, node{histOf(jobs[i]), rs.enabled})
 		}
 		depth++
 		st.Depth = depth
